@@ -84,8 +84,12 @@ func contentType(t uint8) string {
 	return "unknown"
 }
 
+// The longest record body: TLS 1.3 allows 2^14 + 256 bytes for a protected
+// record (RFC 8446, Section 5.2).
+const maxRecordLength = 16384 + 256
+
 func readRecord(conn net.Conn) ([]byte, error) {
-	record := make([]byte, 16389)
+	record := make([]byte, 5+maxRecordLength)
 	n, err := io.ReadFull(conn, record[:5])
 	if err == io.ErrUnexpectedEOF {
 		err = io.EOF
@@ -94,8 +98,8 @@ func readRecord(conn net.Conn) ([]byte, error) {
 		return record[:n], err
 	}
 	length := uint32(record[3])<<8 | uint32(record[4])
-	if length > 16384 {
-		return record[:n], fmt.Errorf("%w: record length %d > 16384", ErrDecodeError, length)
+	if length > maxRecordLength {
+		return record[:n], fmt.Errorf("%w: record length %d > %d", ErrDecodeError, length, maxRecordLength)
 	}
 	nn, err := io.ReadFull(conn, record[n:n+int(length)])
 	if err == io.ErrUnexpectedEOF {
